@@ -267,6 +267,9 @@ package node
 //@   requires[cr]  crOK(cr)
 //@   modifies *cr.CS, allelems(*cr.CS), *cr.DS, allelems(*cr.DS), mapof(*cr.Dbg)
 //@   ensures[K2_code] csKept(cr) && csNewWF(cr) && dsKept(cr) && crOK(cr)
+// C12: `if !c A else B` means `if c B else A`: a negated condition is compiled as its operand with the
+// opposite jump - jump-if-false exactly when (the caller wants the false branch) differs from (negated).
+//@   ensures[polarity;C12,C01] bcop((*cr.CS)[result]) == ite(falsey != (dyntype(condition) == typeid[UnOp]() && condition.(UnOp).Op == "!"), bytecode.JMPF, bytecode.JMPT)
 //@   ensures[jump] result == len(*cr.CS) - 1 && result >= old(len(*cr.CS))
 //@       && (bcop((*cr.CS)[result]) == bytecode.JMPF || bcop((*cr.CS)[result]) == bytecode.JMPT) && bck((*cr.CS)[result], 1) == 0 && bca((*cr.CS)[result], 1) == 0
 //
@@ -274,9 +277,11 @@ package node
 // code emitted for the statement contains the conditional jump that tests (and type-checks) the condition.
 //@ fun isCondJump(i bytecode.Type) bool := bcop(i) == bytecode.JMPF || bcop(i) == bytecode.JMPT
 //@ func (If).byteCode [C05,C12] implements ByteCoder.byteCode
+//@   atcall condition(i.Condition with (callee_falsey bool) requires[true_case_follows_the_test;C12,C01] callee_falsey   // the code right after the jump is the true case: the jump must be the one taken when the condition is false
 //@   assumes[unfold] exprOK(i.Condition) && wfAST(i.TrueCase) && (dyntype(i.Condition) == typeid[UnOp]() ==> exprOK(i.Condition.(UnOp).Target))
 //@   ensures[cond_tested;C12,C09] exists k :: old(len(*cr.CS)) <= k && k < len(*cr.CS) && isCondJump((*cr.CS)[k])
 //@ func (IfElse).byteCode [C05,C12] implements ByteCoder.byteCode
+//@   atcall condition(i.Condition with (callee_falsey bool) requires[true_case_follows_the_test;C12,C01] callee_falsey   // the code right after the jump is the true case: the jump must be the one taken when the condition is false
 //@   assumes[unfold] exprOK(i.Condition) && wfAST(i.TrueCase) && wfAST(i.FalseCase) && (dyntype(i.Condition) == typeid[UnOp]() ==> exprOK(i.Condition.(UnOp).Target))
 //@   ensures[cond_tested;C12,C09] exists k :: old(len(*cr.CS)) <= k && k < len(*cr.CS) && isCondJump((*cr.CS)[k])
 //
@@ -301,6 +306,8 @@ package node
 //@   assumes[unfold] whileOK(w)
 //@   ensures[cond_tested;C12,C09] exists k :: old(len(*cr.CS)) <= k && k < len(*cr.CS) && isCondJump((*cr.CS)[k])
 //@ func discardingWhile [C05,C12]
+//@   atcall condition(w.Condition #1 with (callee_falsey bool) requires[entry_test_skips_loop_when_false;C12,C01] callee_falsey
+//@   atcall condition(w.Condition #2 with (callee_falsey bool) requires[back_jump_when_true;C12,C01] !callee_falsey
 //@   requires[sel] 0 <= srcsel && srcsel <= 2
 //@   requires[ast] whileOK(w) && fl.Data().OpDepth == 0
 //@   requires[ctx] fl.Data().InFor ==> fl.Data().CtxLo <= fl.Data().CtxHi && fl.Data().CtxHi < fl.Data().CtxID
@@ -311,6 +318,8 @@ package node
 //@   ensures[K1_desc] descOnly(result, srcsel) && bck(result, srcsel) == bytecode.AddrInv
 //@   ensures[cond_tested;C12,C09] exists k :: old(len(*cr.CS)) <= k && k < len(*cr.CS) && isCondJump((*cr.CS)[k])
 //@ func pushingWhile [C05,C12]
+//@   atcall condition(w.Condition #1 with (callee_falsey bool) requires[entry_test_skips_loop_when_false;C12,C01] callee_falsey
+//@   atcall condition(w.Condition #2 with (callee_falsey bool) requires[back_jump_when_true;C12,C01] !callee_falsey
 //@   requires[sel] 0 <= srcsel && srcsel <= 2
 //@   requires[ast] whileOK(w) && fl.Data().OpDepth == 0 && !fl.Data().Discard
 //@   requires[ctx] fl.Data().InFor ==> fl.Data().CtxLo <= fl.Data().CtxHi && fl.Data().CtxHi < fl.Data().CtxID
